@@ -40,6 +40,8 @@ func (h *Handler6) PrintTable() {
 		}
 	}
 
+	h.Lock() // LANRouters is written under the lock
+	defer h.Unlock()
 	if len(h.LANRouters) > 0 {
 		fmt.Printf("icmp6 routers table len=%v\n", len(h.LANRouters))
 		for _, v := range h.LANRouters {
